@@ -1,6 +1,6 @@
 #!/bin/bash
 # usage: run_seed.sh <patch.diff> <property id>[:units] ...   — applies the patch to /repo, runs the checks, undoes it
-patch=$1; shift
+patch=$(realpath "$1"); shift
 cd /repo && git diff --quiet || { echo "/repo not clean"; exit 9; }
 git -C /repo apply "$patch" || { echo "APPLY_FAIL"; exit 1; }
 for spec in "$@"; do
